@@ -218,7 +218,19 @@ func c16Scenario(c *Ctx, idx int, r *Rng) (mline, mimpl, mcase string) {
 						if byId {
 							args = []string{"unlock", "--id", id}
 						}
-						_, ucode := w.runLfs(args...)
+						var ucode int
+						if d := filepath.Dir(f); d != "." && r.Chance(70) {
+							// from the file's own directory (by its name there / by id)
+							a2 := args
+							if !byId {
+								a2 = []string{"unlock", filepath.Base(f)}
+							}
+							_, ucode = runIn(filepath.Join(w.dir, d), w.env, w.lfs, a2...)
+							args = append([]string{"(cd " + d + ")"}, a2...)
+							c.R.Count("unlock.from-subdirectory")
+						} else {
+							_, ucode = w.runLfs(args...)
+						}
 						log("%s (modified=true) -> %d", strings.Join(args, " "), ucode)
 						if byId {
 							var n int
@@ -229,7 +241,7 @@ func c16Scenario(c *Ctx, idx int, r *Rng) (mline, mimpl, mcase string) {
 						}
 						observe()
 						if table()[f] != "alice" {
-							fail("`git lfs "+args[0]+map[bool]string{true: " --id", false: ""}[byId]+"` without --force released the lock of a file with uncommitted changes", f, "")
+							fail("`git lfs unlock"+map[bool]string{true: " --id", false: ""}[byId]+"` without --force released the lock of a file with uncommitted changes", f, "")
 						}
 						c.R.Count("guarded-unlock")
 					}
@@ -294,7 +306,16 @@ func c16Scenario(c *Ctx, idx int, r *Rng) (mline, mimpl, mcase string) {
 			srv.mu.Lock()
 			srv.user = "alice"
 			srv.mu.Unlock()
-			_, code := w.runLfs(args...)
+			var code int
+			if d := filepath.Dir(f); d != "." && r.Chance(50) {
+				// from the file's own directory, by its name there — as users do
+				a2 := append([]string{"unlock", filepath.Base(f)}, args[2:]...)
+				_, code = runIn(filepath.Join(w.dir, d), w.env, w.lfs, a2...)
+				args = append([]string{"(cd " + d + ")"}, a2...)
+				c.R.Count("unlock.from-subdirectory")
+			} else {
+				_, code = w.runLfs(args...)
+			}
 			log("%s (modified=%v) -> %d", strings.Join(args, " "), mod, code)
 			mops = append(mops, fmt.Sprintf("U:%d:%s:%s:ok", pidx[f], b01(force), b01(mod)))
 			observe()
